@@ -619,8 +619,12 @@ bool JareckiLysyanskayaRVSS::Share
 		complaints_counter.clear(), complaints_from.clear(); // reset for final complaint resolution
 		for (size_t j = 0; j < n; j++)
 			complaints_counter.push_back(0); // initialize counter
+		std::vector< std::vector<size_t> > complainers(n); // who complained against whom
 		for (std::vector<size_t>::iterator it = complaints.begin(); it != complaints.end(); ++it)
+		{
 			complaints_counter[*it]++; // count my own complaints
+			complainers[*it].push_back(i);
+		}
 		complaints.clear();
 		for (size_t j = 0; j < n; j++)
 		{
@@ -642,6 +646,7 @@ bool JareckiLysyanskayaRVSS::Share
 					{
 						err << "P_" << i << ": receiving complaint against P_" << who << " from P_" << j << std::endl;
 						complaints_counter[who]++;
+						complainers[who].push_back(j);
 						dup.insert(std::pair<size_t, bool>(who, true)); // mark as counted for $P_j$
 						if (who == i)
 							complaints_from.push_back(j);
@@ -688,6 +693,7 @@ bool JareckiLysyanskayaRVSS::Share
 			if (j != i)
 			{
 				size_t cnt = 0;
+				std::vector<size_t> answered; // complaints answered by $P_j$
 				do
 				{
 					if (!rbc->DeliverFrom(lhs, j))
@@ -747,6 +753,7 @@ bool JareckiLysyanskayaRVSS::Share
 					}
 					else
 					{
+						answered.push_back(who);
 						// don't be too curious
 						if (who == i)
 						{
@@ -759,6 +766,16 @@ bool JareckiLysyanskayaRVSS::Share
 					cnt++;
 				}
 				while (cnt <= n);
+				// every complaint against $P_j$ must have been answered
+				for (size_t c = 0; c < complainers[j].size(); c++)
+				{
+					if (std::find(answered.begin(), answered.end(), complainers[j][c]) == answered.end())
+					{
+						err << "P_" << i << ": complaint from P_" << complainers[j][c] << " not answered; complaint against P_" << j << std::endl;
+						complaints.push_back(j);
+						break;
+					}
+				}
 			}
 		}
 		Qual.clear();
